@@ -151,7 +151,7 @@ func replay(r *ev.Run, viol *violations) {
 	case "promql":
 		var c promCase
 		json.Unmarshal(doc.Replay, &c)
-		db := promDB()
+		db := promDBVariant(c.DB)
 		tables, err := db.Tables()
 		if err != nil {
 			ev.Fatal("%v", err)
